@@ -1,20 +1,36 @@
 #!/venv/bin/python
-"""Print the markdown table of seeded changes (section 8 of DESIGN.md) from seeded/*/meta.json."""
+"""Print the markdown tables of seeded changes and negative controls (section 8 of DESIGN.md) from
+the meta.json files written by tools/run_seeded.py / tools/run_negative.py."""
 import glob
 import json
 
-rows = []
+
+def clip(s, n):
+    s = (s or "").replace("|", "/").replace("\n", " ")
+    return s if len(s) <= n else s[: n - 3] + "..."
+
+
+print("| id | change (as described by its author) | needs to manifest | quick check |")
+print("|----|--------------------------------------|-------------------|-------------|")
+tot = {}
 for f in sorted(glob.glob("/verif/seeded/*/meta.json")):
     m = json.load(open(f))
     r = m.get("result", {})
-    title = (m.get("title") or "").replace("|", "/")
-    if len(title) > 120:
-        title = title[:117] + "..."
-    needs = (m.get("needs_to_manifest") or "").replace("|", "/").replace("\n", " ")
-    if len(needs) > 160:
-        needs = needs[:157] + "..."
-    classes = "; ".join(sorted({c.split("): ")[-1] for c in r.get("classes", [])}))[:200].replace("|", "/")
-    rows.append(f"| `{m['id']}` | {m['property']} | {title} | {needs} | **{r.get('verdict')}** ({r.get('runs')} runs, {r.get('wall_s')} s) |")
-print("| id | property | change | needs to manifest | quick check |")
-print("|----|----------|--------|-------------------|-------------|")
-print("\n".join(rows))
+    v = r.get("verdict")
+    tot[v] = tot.get(v, 0) + 1
+    print(f"| `{m['id']}` | {clip(m.get('title'), 150)} | {clip(m.get('needs_to_manifest'), 170)} | "
+          f"**{v}** ({r.get('runs')} runs, {r.get('wall_s')} s) |")
+print()
+print("Totals:", ", ".join(f"{k}: {v}" for k, v in sorted(tot.items())))
+print()
+print("| id | behaviour-preserving change | quick check |")
+print("|----|-----------------------------|-------------|")
+tot = {}
+for f in sorted(glob.glob("/verif/negative/*/meta.json")):
+    m = json.load(open(f))
+    r = m.get("result", {})
+    v = r.get("verdict")
+    tot[v] = tot.get(v, 0) + 1
+    print(f"| `{m['id']}` | {clip(m.get('title'), 170)} | **{v}** ({r.get('runs')} runs; tests: {clip(r.get('tests'), 22)}) |")
+print()
+print("Totals:", ", ".join(f"{k}: {v}" for k, v in sorted(tot.items())))
